@@ -11,7 +11,7 @@ from . import gamma
 
 
 class Lattice(object):
-    def __init__(self, mesh, n1, n2, axes=(0, 1, 2), ext0=2, ext_cut=True, ndims=3, scale=1):
+    def __init__(self, mesh, n1, n2, axes=(0, 1, 2), ext0=2, ext_cut=True, ndims=3, scale=1, tile=None):
         """
         mesh : [[{"lo":[a,b],"hi":[c,d]},..],..]   abstract boxes per level
         axes : (physical axis of lattice axis 1, of lattice axis 2, of the extrusion axis)
@@ -27,6 +27,10 @@ class Lattice(object):
         self.scale = scale if isinstance(scale, int) else None
         self.scale1, self.scale2 = (scale, scale) if isinstance(scale, int) else tuple(scale)
         self.nlev = len(mesh)
+        # tile: every concrete box is cut further into boxes of at most `tile` cells along each axis.  The cells of the level
+        # are the same, so every expectation computed on the abstract mesh stands; the NUMBER of boxes (and of neighbours,
+        # of tasks, of digits in a box number) grows into the hundreds
+        self.tile = tile
 
     def dom(self):
         d = [0] * self.ndims
@@ -41,6 +45,20 @@ class Lattice(object):
 
     def concrete_boxes(self, lv):
         """[(abstract box number (1-based), {"lo","hi"}), ...] in header order."""
+        out = self._concrete_boxes(lv)
+        if not self.tile:
+            return out
+        tiled = []
+        for b, box in out:
+            ranges = []
+            for d in range(self.ndims):
+                ranges.append([(a, min(a + self.tile - 1, box["hi"][d])) for a in range(box["lo"][d], box["hi"][d] + 1, self.tile)])
+            import itertools
+            for combo in itertools.product(*ranges):
+                tiled.append((b, {"lo": [c[0] for c in combo], "hi": [c[1] for c in combo]}))
+        return tiled
+
+    def _concrete_boxes(self, lv):
         out = []
         s1, s2 = self.scale1, self.scale2
         for b, ab in enumerate(self.mesh[lv], 1):
